@@ -66,6 +66,7 @@ public:
              )
     {
         // Fire exception in case of error.
+        this->get()->client_data = static_cast< backend_t* >( this ); // see reader::apply
         if( setjmp( this->_mark )) { this->raise_error(); }
 
         // read data
@@ -76,6 +77,7 @@ public:
     void skip( byte_t* dst, int )
     {
         // Fire exception in case of error.
+        this->get()->client_data = static_cast< backend_t* >( this ); // see reader::apply
         if( setjmp( this->_mark )) { this->raise_error(); }
 
         // read data
@@ -89,6 +91,10 @@ private:
 
     void initialize()
     {
+        // Fire exception in case of error.
+        this->get()->client_data = static_cast< backend_t* >( this ); // see reader::apply
+        if( setjmp( this->_mark )) { this->raise_error(); }
+
         this->get()->dct_method = this->_settings._dct_method;
 
         io_error_if( jpeg_start_decompress( this->get() ) == false
